@@ -278,6 +278,15 @@ class X690Model:
             cls = PyClass("hmac-object", [], kind="builtin")
             cls.native_attrs["digest"] = Builtin("digest", lambda i, a, k: d)
             return Obj(cls)
+        if name == "hmac.digest":
+            # the one-shot form: hmac.digest(key, msg, digest) == hmac.new(key, msg, digest).digest()
+            key, msg = args[0], args[1] if len(args) > 1 else kwargs.get("msg")
+            method = kwargs.get("digest", args[2] if len(args) > 2 else None)
+            if not isinstance(method, (str, SStr)):
+                raise Undecided("hmac.digest with a non-string digest name")
+            return SBytes(rt.f_hmac(rt.to_str_expr(method), rt.wire.z(key), rt.wire.z(msg)))
+        if name == "hmac.compare_digest":
+            return interp.eq(args[0], args[1])
         if name == "import_module":
             mod = args[0]
             if rt.program.module(mod) is not None or any(n.startswith(mod + ".") for n in rt.program.modules):
